@@ -5,6 +5,7 @@ import Rare.Proofs.C11Format
 import Rare.Proofs.C11Hf
 import Rare.Proofs.C11CaseC13
 import Rare.Proofs.C11R4
+import Rare.Proofs.C11Log
 /-!
 # C11 — scalar helper functions follow their documented semantics
 
@@ -1052,6 +1053,141 @@ example : Case.goToUpper [0xC3, 0x9F] = [0xC3, 0x9F] ∧ Case.goToUpper [0xC5, 0
     Case.goToLower [0xC8, 0xBA] = [0xE2, 0xB1, 0xA5] ∧ Case.goToUpper [97, 0xFF] = [65, 0xEF, 0xBF, 0xBD] ∧
     Case.goToLower [0xC4, 0xB0] = [105] ∧ Case.goToUpper [0xF0, 0x90, 0x90, 0xA8] = [0xF0, 0x90, 0x90, 0x80] := by
   decide +kernel
+
+/-! ## ln / log10 / log2 / pow (round 4b): `math.Log*` and `math.Pow` as they run (`Rare/Model/C11Log.lean`)
+
+`math.Log` on amd64 is the assembly routine `log_amd64.s`; the model mirrors it instruction by instruction on the
+software binary64 model, `math.Log10` / `math.Log2` / `math.Pow` are the pure-Go functions on top (a `pow` that reaches
+`math.Exp` – fractional exponent other than ±0.5 – stays `unmodelled`).  The direct ops `lg` / `pw` compare them bit
+for bit with the real helpers (every binade, the rescaling threshold `sqrt(2)/2`, subnormals, powers of two and ten). -/
+
+/-- **What a call computes**: `{ln a}` / `{log10 a}` / `{log2 a}` – constant, group or key – parse the value with
+    `strconv.ParseFloat`, apply the function, render with `FormatFloat(·, 'f', -1, 64)`; a value that does not parse
+    gives `<BAD-TYPE>`; no argument value panics. -/
+theorem log_call (c : Ctx) (a : Arg) :
+    (∀ x, Float.parseF (a.val c) = some x →
+      callHelper (Float.unaryF Log.lnStr) [a] c = .ok (Float.fmtF (Log.logAsm x)) ∧
+      callHelper (Float.unaryF Log.log10Str) [a] c = .ok (Float.fmtF (Log.log10 x)) ∧
+      callHelper (Float.unaryF Log.log2Str) [a] c = .ok (Float.fmtF (Log.log2 x))) ∧
+    (Float.parseF (a.val c) = none →
+      callHelper (Float.unaryF Log.lnStr) [a] c = .ok ErrorNum ∧
+      callHelper (Float.unaryF Log.log10Str) [a] c = .ok ErrorNum ∧
+      callHelper (Float.unaryF Log.log2Str) [a] c = .ok ErrorNum) := by
+  constructor
+  · intro x hx; rw [unaryF_call, unaryF_call, unaryF_call, hx]; exact ⟨rfl, rfl, rfl⟩
+  · intro hx; rw [unaryF_call, unaryF_call, unaryF_call, hx]; exact ⟨rfl, rfl, rfl⟩
+
+/-- **Special values of `ln`, for every argument**: `ln ±0 = -Inf`, `ln NaN = NaN`, `ln x = NaN` for every negative `x`
+    (`-Inf` included), `ln +Inf = +Inf`; and `ln 1 = log10 1 = log2 1 = 0` exactly. -/
+theorem log_special_values (x : F64) :
+    (x.mag = 0 → Log.logAsm x = F64.inf true) ∧
+    (x.isNaN = true → Log.logAsm x = F64.nan) ∧
+    (x.sign = true → x.mag ≠ 0 → Log.logAsm x = F64.nan) ∧
+    (x.sign = false → x.isInf = true → Log.logAsm x = x) ∧
+    Log.logAsm F64.one = F64.zero false ∧ Log.log10 F64.one = F64.zero false ∧ Log.log2 F64.one = F64.zero false :=
+  ⟨(Log.logAsm_special x).1, (Log.logAsm_special x).2.1, (Log.logAsm_special x).2.2.1, (Log.logAsm_special x).2.2.2,
+   Log.log_one.1, Log.log_one.2.1, Log.log_one.2.2⟩
+
+/-- **`log2` of a power of two is exactly the exponent**: for every positive normal float with fraction field 0 –
+    `x = 2^(E-1023)`, `E` its biased exponent – `{log2 x}` is the float `E - 1023`; and for the 52 subnormal powers of
+    two `2^(j-1074)` it is `j - 1074` (a finite table). -/
+theorem log2_power_of_two :
+    (∀ x : F64, x.sign = false → x.isFinite = true → 4503599627370496 ≤ x.mag → x.frac = 0 →
+      Log.log2 x = F64.ofInt ((x.expField : Int) - 1023)) ∧
+    ((List.range 52).all fun j => Log.log2 (F64.ofSM false (2 ^ j)) == F64.ofInt ((j : Int) - 1074)) = true :=
+  ⟨Log.log2_pow2_normal, Log.log2_pow2_subnormal⟩
+
+/-- the hypotheses are satisfiable: `1024 = 2^10`. -/
+example : (F64.ofInt 1024).sign = false ∧ (F64.ofInt 1024).isFinite = true ∧ 4503599627370496 ≤ (F64.ofInt 1024).mag ∧
+    (F64.ofInt 1024).frac = 0 ∧ ((F64.ofInt 1024).expField : Int) - 1023 = 10 ∧ Log.log2Str (F64.ofInt 1024) = ascii "10" := by
+  decide +kernel
+
+/-- Finite tables: `{log10 10^k}` is exactly `k` for `k = 0 … 22` except `k = 15` (`14.999999999999998`: the code
+    computes `Log(x) * (1/Ln10)`); `{pow 10 k}` is exactly `10^k` for `k = 0 … 22`; `{pow 2 e}` is exactly `2^e`
+    for `|e| ≤ 40` and at both ends of the range (`2^1024 = +Inf`, `2^-1074` the smallest subnormal, `2^-1075 = 0`). -/
+theorem log_pow_tables :
+    ((List.range 23).filter fun (k : Nat) =>
+      !(Log.log10 (F64.ofInt (((10 ^ k : Nat) : Int))) == F64.ofInt (k : Int))) = [15] ∧
+    ((List.range 23).all fun (k : Nat) =>
+      Log.pow (F64.ofInt 10) (F64.ofInt (k : Int)) == some (F64.ofInt (((10 ^ k : Nat) : Int)))) = true ∧
+    (((List.range 81).map (fun (j : Nat) => (j : Int) - 40) ++ [-1075, -1074, -1073, -1023, -1022, -1021, 1022, 1023, 1024]).all
+      fun e => Log.pow Log.two (F64.ofInt e) == some (Log.ldexp F64.one e)) = true ∧
+    Log.ldexp F64.one 1024 = F64.inf false ∧ Log.ldexp F64.one (-1075) = F64.zero false ∧
+    Log.ldexp F64.one 10 = F64.ofInt 1024 :=
+  ⟨Log.log10_table, Log.pow10_table, Log.pow2_table⟩
+
+/-- **`{pow a b}`**: the leading special cases of `math.Pow` for ALL arguments – `x^±0 = 1` and `1^y = 1` (also for NaN),
+    `x^1 = x`, otherwise NaN in gives NaN out. -/
+theorem pow_special_cases (x y : F64) :
+    (y.mag = 0 → Log.pow x y = some F64.one) ∧
+    (F64.eq x F64.one = true → Log.pow x y = some F64.one) ∧
+    (y.mag ≠ 0 → F64.eq x F64.one = false → F64.eq y F64.one = true → Log.pow x y = some x) ∧
+    (y.mag ≠ 0 → F64.eq x F64.one = false → F64.eq y F64.one = false → (x.isNaN = true ∨ y.isNaN = true) →
+      Log.pow x y = some F64.nan) :=
+  Log.pow_special x y
+
+/-- The call `{pow a b}`, constants and groups alike: the rendering of `math.Pow` of the parsed values; a value that
+    is not a float gives `<BAD-TYPE>`. -/
+theorem pow_call_spec (c : Ctx) (a b : Arg) :
+    (∀ x y r, Float.parseF (a.val c) = some x → Float.parseF (b.val c) = some y → Log.pow x y = some r →
+      callHelper Log.kfPow [a, b] c = .ok (Float.fmtF r)) ∧
+    ((Float.parseF (a.val c) = none ∨ Float.parseF (b.val c) = none) → callHelper Log.kfPow [a, b] c = .ok ErrorNum) :=
+  ⟨fun x y r ha hb hr => Log.pow_call c a b x y r ha hb hr, Log.pow_marker c a b⟩
+
+example : (callHelper Log.kfPow [.const (ascii "2"), .group 0] ⟨fun _ => ascii "-3", fun _ => []⟩).toOption = some (ascii "0.125") ∧
+    (callHelper Log.kfPow [.const (ascii "-2"), .group 0] ⟨fun _ => ascii "3", fun _ => []⟩).toOption = some (ascii "-8") ∧
+    (callHelper Log.kfPow [.const (ascii "-8"), .group 0] ⟨fun _ => ascii "x", fun _ => []⟩).toOption = some ErrorNum := by
+  decide +kernel
+
+/-! ### KNOWN FINDING: `{ln v}` / `{log10 v}` of a subnormal `v` is a wrong number
+
+The full statement is `∀ x, Log.logAsm x = Log.logNorm x` – the code's `ln` is the documented algorithm applied to the
+`Frexp` decomposition of the argument (what `math.Log` computes on every other architecture).  It is FALSE for the code
+as it runs: `log_amd64.s` reads exponent and fraction straight from the bit pattern and never normalises a subnormal,
+so `{ln 5e-324}` is `-709.0895657128241` (the logarithm is `-744.44…`) and `{log10 5e-324}` is `-307.95…` (`-323.3…`),
+while `{log2 5e-324}` is the correct `-1074`.  Proved instead: the statement off the subnormal range
+(`ln_is_documented_algorithm_partial`) and its negation at the witness, where the code's answer also violates the
+elementary enclosure `ln x ≤ -e·0.693` for `x ≤ 2^-e` (`ln_subnormal_counterexample`).  The cases `C11 spec ln 35652d333234`
+and `C11 spec log10 35652d333234` are listed in `known_findings/C11.json` (root cause in the Go runtime, not in rare's
+own code: recorded, not repaired). -/
+
+/-- Every argument that is not subnormal (normal, zero excluded by `mag ≥ 2^52`, ±Inf, NaN): the code's `ln` / `log10`
+    is the documented algorithm's. -/
+theorem ln_is_documented_algorithm_partial (x : F64) (h : 4503599627370496 ≤ x.mag) :
+    Log.logAsm x = Log.logNorm x ∧ Log.log10 x = Log.log10Norm x := by
+  have := Log.logAsm_eq_logNorm x h
+  exact ⟨this, by unfold Log.log10 Log.log10Norm; rw [this]⟩
+
+/-- The witness `5e-324 = 2^-1074`: it parses, the code answers `-709.0895657128241` / `-307.9536855642528`, the
+    documented algorithm `-744.4400719213812` / `-323.30621534311575`; the code's `ln` breaks the enclosure
+    `Spec.LnUpperOK` (at `e = 1074`: `ln x ≤ -744.28`), the documented algorithm's answer respects that bound; `log2`
+    of the same value is right. -/
+theorem ln_subnormal_counterexample :
+    Float.parseF (ascii "5e-324") = some Log.tiny ∧
+    Log.lnStr Log.tiny = ascii "-709.0895657128241" ∧ Log.log10Str Log.tiny = ascii "-307.9536855642528" ∧
+    Float.fmtF (Log.logNorm Log.tiny) = ascii "-744.4400719213812" ∧
+    Float.fmtF (Log.log10Norm Log.tiny) = ascii "-323.30621534311575" ∧
+    Log.logAsm Log.tiny ≠ Log.logNorm Log.tiny ∧
+    ¬ Spec.LnUpperOK Log.tiny (Log.logAsm Log.tiny) ∧
+    (Log.logNorm Log.tiny).toRat ≤ -((((1074 : Nat) : Int) : Rat) * (693 / 1000)) ∧
+    Log.log2Str Log.tiny = ascii "-1074" ∧
+    (∀ c : Ctx, callHelper (Float.unaryF Log.lnStr) [.const (ascii "5e-324")] c = .ok (ascii "-709.0895657128241")) := by
+  obtain ⟨hp, hv, h1, h2, h3, h4, h5⟩ := Log.tiny_facts
+  refine ⟨hp, h1, h2, h3, h4, ?_, ?_, Log.tiny_bound.2, h5, ?_⟩
+  · intro he
+    have : Float.fmtF (Log.logAsm Log.tiny) = Float.fmtF (Log.logNorm Log.tiny) := by rw [he]
+    rw [h3] at this
+    have h1' : Float.fmtF (Log.logAsm Log.tiny) = ascii "-709.0895657128241" := h1
+    rw [h1'] at this
+    revert this
+    decide +kernel
+  · intro hok
+    exact Log.tiny_bound.1 (hok 1074 (by rw [hv]; exact Rat.le_refl))
+  · intro c
+    have := ((log_call c (.const (ascii "5e-324"))).1 Log.tiny hp).1
+    rw [this]
+    exact congrArg Except.ok h1
+
 
 /-! ## hf: the sign of the rendering (KNOWN FINDING: `{hf -Inf}` prints `Inf`)
 
